@@ -212,7 +212,7 @@ class Ctx:
         mine = [v for v in self.violations]
         if mine:
             os.makedirs(os.path.join(VERIF, "replay"), exist_ok=True)
-            rdir = os.path.join(VERIF, "replay") if "VERIF_REPO" not in os.environ else os.path.join(tempfile.gettempdir(), "verif_scratch_replay")
+            rdir = os.path.join(VERIF, "replay") if ("VERIF_REPO" not in os.environ and not getattr(self, "replay_mode", False)) else os.path.join(tempfile.gettempdir(), "verif_scratch_replay")
             os.makedirs(rdir, exist_ok=True)
             path = os.path.join(rdir, "%s-%s-%d.json" % (self.pid, self.tier, self.seed))
             with open(path, "w") as f:
@@ -250,7 +250,7 @@ class Ctx:
         }
         # evidence under /verif/evidence always describes /repo itself; experiments against a scratch tree
         # (VERIF_REPO=...) write theirs to a scratch directory instead
-        evdir = os.path.join(VERIF, "evidence") if "VERIF_REPO" not in os.environ else os.path.join(
+        evdir = os.path.join(VERIF, "evidence") if ("VERIF_REPO" not in os.environ and not getattr(self, "replay_mode", False)) else os.path.join(
             tempfile.gettempdir(), "verif_scratch_evidence")
         os.makedirs(evdir, exist_ok=True)
         with open(os.path.join(evdir, self.pid + ".json"), "w") as f:
